@@ -1,6 +1,7 @@
 import Pi2.TautThm
 import Pi2.TautTie
 import Pi2.StageThm
+import Pi2.ClauseTotal
 /-!
 # C09 — the tautology prover decides correctly
 
@@ -26,6 +27,16 @@ and of its output; and `start_resolution_algorithm` / the final assembly of `pro
 refutation) / literally the pattern (or its negation), given what `prove_trivial_clause` and `build_proof_from_hint` promise
 about the proofs they return (the clause utilities and the reconstruction from the resolution hint are NOT translated: they
 are parameters of the generated functions, replayed per sample by the check).  The per-lemma facts are those of C10 (`C10.conc_stable`: every library lemma, at ALL arguments).
+
+THE CLAUSE UTILITIES AND THE RESOLUTION PROOF BUILDER.  `Pi2/Gen/ClauseProofs.lean` is regenerated on every run from the same
+text (`vlib/transclause.py`: `id_to_metavar`, `foldl_op` / `foldr_op`, `clause_to_pattern`, `clause_conjunctionto_pattern`,
+`conjunction_implies_nth`, `ac_move_to_front` with its nested `unroll`, `or_move_to_front` / `and_move_to_front`,
+`reduce_n_or_duplicates_at_front`, `simplify_clause`, `merge_clauses`, `prove_trivial_clause`, `build_proof_from_hint`, with
+ALL their statements).  `Pi2/ClauseThm.lean` (+ `ClauseBase`, `ClauseMove`, `ClauseTriv`) proves what each of them concludes
+and DISCHARGES the two hypotheses (`ClauseThm.ptc_spec`, `ClauseThm.bpfh_spec`): `clause_utilities_conclude`,
+`resolution_proof_conclusion_closed`, `prover_proof_conclusion_is_literal_closed`, `prover_returns_proof_sound`,
+`prover_returns_proof_complete`, `prover_returns_proof_iff` are about the generated prover with proof objects, with no hypothesis
+left (`Pi2/ClauseProver.lean`: what it answers is right; `Pi2/ClauseTotal.lean`: it answers wherever the model does).
 -/
 namespace C09
 open Res
@@ -227,5 +238,184 @@ theorem stage_data_is_the_data_slice :
     (∀ (c : CF) (cls : List (List Int)) (n : Nat), depth c ≤ n → c.IsCNF = true → CF.toClauses c = some cls →
       (Gen.Stage.to_clauses algGS n (ofCF c)).map erase3 = Gen.PyTaut.to_clauses n (ofCF c)) :=
   ⟨StageThm.to_conj_form_data, StageThm.propag_neg_data, StageThm.to_cnf_data, StageThm.to_clauses_data⟩
+
+/-! ## the clause utilities and the resolution proof builder: the two hypotheses discharged -/
+
+/-- every clause utility and the resolution proof builder, with ALL their statements, are covered by the translator -/
+theorem clause_proofs_translated : Gen.Clause.translated = true := ClauseThm.translated
+
+open StageThm StageSup ClauseThm Lem in
+/-- what the clause utilities conclude, on conclusions (`algCS`), at every sufficient fuel, as equations with the advertised
+pattern: `conjunction_implies_nth(term, n, l)` concludes `term -> (the n-th conjunct)`; `or_move_to_front` /
+`and_move_to_front` for the ascending positions of a mask conclude `terms <-> (selected operands, then the others)`;
+`reduce_n_or_duplicates_at_front(n, terms)` concludes `p \/ (p .. (p \/ q)) <-> p \/ q`; `simplify_clause(cl, x)` returns
+the clause with the occurrences of `x` merged in front and concludes `clause_to_pattern(cl) <-> clause_to_pattern(result)`;
+`merge_clauses` concludes `(l1 \/ ..) \/ r <-> l1 \/ (.. \/ r)`; `prove_trivial_clause` concludes `clause_to_pattern(cl)` on
+every trivial clause -/
+theorem clause_utilities_conclude :
+    (∀ (ps : List Pat) (n fuel : Nat) (hn : n < ps.length), ps.length ≤ fuel →
+      Gen.Clause.conjunction_implies_nth algCS fuel (foldrP andP ps) (n : Int) (ps.length : Int) =
+        some (.imp (foldrP andP ps) ps[n])) ∧
+    (∀ (bs : List Bool) (xs : List Pat) (fuel : Nat), bs.length = xs.length → xs ≠ [] → moveFuel xs.length ≤ fuel →
+      Gen.Clause.or_move_to_front algCS fuel ((idxs 0 bs).map fun (p : Nat) => (p : Int)) xs =
+        some (equivP (foldrP orP xs) (foldrP orP (sel bs xs ++ sel (bs.map not) xs)))) ∧
+    (∀ (bs : List Bool) (xs : List Pat) (fuel : Nat), bs.length = xs.length → xs ≠ [] → moveFuel xs.length ≤ fuel →
+      Gen.Clause.and_move_to_front algCS fuel ((idxs 0 bs).map fun (p : Nat) => (p : Int)) xs =
+        some (equivP (foldrP andP xs) (foldrP andP (sel bs xs ++ sel (bs.map not) xs)))) ∧
+    (∀ (p : Pat) (rest : List Pat) (n fuel : Nat), n + 1 + rest.length ≤ fuel →
+      Gen.Clause.reduce_n_or_duplicates_at_front algCS fuel (n : Int) (List.replicate (n + 1) p ++ rest) =
+        some (equivP (foldrP orP (List.replicate (n + 1) p ++ rest)) (foldrP orP (p :: rest)))) ∧
+    (∀ (cl : List Int) (x : Int) (fuel : Nat), NoZero cl → moveFuel cl.length ≤ fuel →
+      Gen.Clause.simplify_clause algCS fuel cl x =
+        some (simplified cl x, equivP (clausePat cl) (clausePat (simplified cl x)))) ∧
+    (∀ (tr : Pat) (ls : List Pat) (fuel : Nat), ls ≠ [] → ls.length ≤ fuel →
+      Gen.Clause.merge_clauses algCS fuel (foldrP orP ls) (ls.length : Int) tr =
+        some (equivP (orP (foldrP orP ls) tr) (foldrP orP (ls ++ [tr])))) ∧
+    (∀ (cl : List Int) (fuel : Nat), NoZero cl → Res.trivial cl = true → moveFuel cl.length ≤ fuel →
+      Gen.Clause.prove_trivial_clause algCS fuel cl = some (clausePat cl)) :=
+  ⟨conjunction_implies_nth_C, or_move_to_front_C, and_move_to_front_C, reduce_n_C, simplify_clause_C, merge_clauses_C,
+    prove_trivial_clause_C⟩
+
+open StageThm StageSup ClauseThm in
+/-- `PtcSpec` / `BpfhSpec` hold of the GENERATED `prove_trivial_clause` / `build_proof_from_hint`: at ANY fuel, on EVERY
+clause / for EVERY hint, key and clause list, whatever they return PROVES the clause pattern / the implication
+`clause_conjunctionto_pattern(terms) -> clause_to_pattern(resolvent)`; and on a trivial clause (sufficient fuel)
+`prove_trivial_clause` does return a proof -/
+theorem clause_builders_prove :
+    PtcSpec ptcG ∧ BpfhSpec bpfhG ∧
+    (∀ F cl th, ptcG F cl = some th → Proves th (clausePat cl)) ∧
+    (∀ F hint cl terms r th, bpfhG F hint cl terms = some (r, th) → Proves th (.imp (clausesPat terms) (clausePat r))) ∧
+    (∀ cl fuel, NoZero cl → Res.trivial cl = true → moveFuel cl.length ≤ fuel →
+      ∃ th, ptcG fuel cl = some th ∧ Proves th (clausePat cl)) :=
+  ⟨ptc_spec, bpfh_spec, prove_trivial_clause_proofs, build_proof_from_hint_proofs, prove_trivial_clause_total⟩
+
+open StageThm StageSup ClauseThm in
+/-- `resolution_proof_conclusion` for the generated prover, no hypothesis left: at ANY fuel, verdict `True` of
+`start_resolution_algorithm` comes with a proof of the clause conjunction, verdict `False` with a proof that it implies ⊥ -/
+theorem resolution_proof_conclusion_closed (F : Nat) (cls : List (List Int)) (b : Bool) (th : Lem.GTh)
+    (h : Gen.Stage.start_resolution_algorithm algGS (Gen.Clause.prove_trivial_clause algGS)
+      (Gen.Clause.build_proof_from_hint algGS) F cls = some (some (b, th))) :
+    Proves th (if b then clausesPat cls else .imp (clausesPat cls) Lem.botP) :=
+  resolution_proof_conclusion _ _ ptc_spec bpfh_spec F cls b th h
+
+open StageThm StageSup ClauseThm in
+/-- `prover_proof_conclusion_is_literal` for the generated prover, no hypothesis left: at ANY fuel, whatever
+`prove_tautology` as written returns with verdict `True` PROVES literally the pattern, with verdict `False` its negation -/
+theorem prover_proof_conclusion_is_literal_closed (n : Nat) (f : Form) (b : Bool) (th : Lem.GTh)
+    (h : Gen.Stage.prove_tautology algGS (Gen.Clause.prove_trivial_clause algGS)
+      (Gen.Clause.build_proof_from_hint algGS) n f = some (some (b, th))) :
+    Proves th (if b then toPat f else Lem.negP (toPat f)) :=
+  prover_proof_conclusion_is_literal _ _ ptc_spec bpfh_spec n f b th h
+
+open StageThm StageSup ClauseThm in
+/-- the first sentence of C09 for the GENERATED prover WITH PROOF OBJECTS (`prove_tautology` over proof trees, calling the
+generated `prove_trivial_clause` and `build_proof_from_hint`), soundness, at ANY fuel: it answers `(True, th)` only for
+tautologies, and then `th` PROVES literally the pattern; `(False, th)` only for unsatisfiable patterns, and then `th` PROVES
+literally its negation; `None` only for contingent patterns -/
+theorem prover_returns_proof_sound (fuel : Nat) (f : Form) :
+    (∀ th, Gen.Stage.prove_tautology algGS ptcG bpfhG fuel f = some (some (true, th)) →
+      (∀ v, f.eval v = true) ∧ Proves th (toPat f)) ∧
+    (∀ th, Gen.Stage.prove_tautology algGS ptcG bpfhG fuel f = some (some (false, th)) →
+      (∀ v, f.eval v = false) ∧ Proves th (Lem.negP (toPat f))) ∧
+    (Gen.Stage.prove_tautology algGS ptcG bpfhG fuel f = some none →
+      (∃ v, f.eval v = true) ∧ (∃ v, f.eval v = false)) := by
+  have hom := prove_tautology_hom ptcG ptcC bpfhG bpfhC prove_trivial_clause_hom build_proof_from_hint_hom fuel f
+  refine ⟨fun th h => ?_, fun th h => ?_, fun h => ?_⟩
+  · rw [h] at hom
+    obtain ⟨N, hN⟩ := stage_prover_sound fuel f _ hom.symm
+    exact ⟨(_root_.prover_decides (N + 0) f).1 (hN 0), prover_proof_conclusion_is_literal_closed fuel f true th h⟩
+  · rw [h] at hom
+    obtain ⟨N, hN⟩ := stage_prover_sound fuel f _ hom.symm
+    exact ⟨(_root_.prover_decides (N + 0) f).2.1 (hN 0), prover_proof_conclusion_is_literal_closed fuel f false th h⟩
+  · rw [h] at hom
+    obtain ⟨N, hN⟩ := stage_prover_sound fuel f _ hom.symm
+    exact (_root_.prover_decides (N + 0) f).2.2 (hN 0)
+
+open StageThm StageSup ClauseThm in
+/-- …and completeness: where the model `proveTautology` answers `x` (at some fuel), the generated prover with proof objects
+answers `x` at EVERY sufficiently large fuel — with a proof tree that PROVES literally the pattern (`x = True`) / its negation
+(`x = False`); none of its assertions and none of its proof constructions (`or_move_to_front`, `simplify_clause`,
+`merge_clauses`, `resolution_step`, …) fails -/
+theorem prover_returns_proof_complete (F : Nat) (f : Form) (x : Option Bool) (hm : proveTautology F f = some x) :
+    ∃ F', ∀ G, F' ≤ G →
+      match x with
+      | some true => ∃ th, Gen.Stage.prove_tautology algGS ptcG bpfhG G f = some (some (true, th)) ∧ Proves th (toPat f)
+      | some false => ∃ th, Gen.Stage.prove_tautology algGS ptcG bpfhG G f = some (some (false, th)) ∧
+          Proves th (Lem.negP (toPat f))
+      | none => Gen.Stage.prove_tautology algGS ptcG bpfhG G f = some none := by
+  obtain ⟨F', hF'⟩ := stage_prover_complete F f x hm
+  refine ⟨F', fun G hG => ?_⟩
+  have hom := prove_tautology_hom ptcG ptcC bpfhG bpfhC prove_trivial_clause_hom build_proof_from_hint_hom G f
+  rw [hF' G hG] at hom
+  obtain ⟨a, ha, hpa⟩ := of_hom hom
+  cases x with
+  | none =>
+    cases a with
+    | none => exact ha
+    | some bp => cases hpa
+  | some b =>
+    cases a with
+    | none => cases hpa
+    | some bp =>
+      obtain ⟨b', th⟩ := bp
+      have e : (b', th.conc) = (b, if b = true then toPat f else Lem.negP (toPat f)) := Option.some.inj hpa
+      simp only [Prod.mk.injEq] at e
+      obtain ⟨rfl, hc⟩ := e
+      cases b' with
+      | true => exact ⟨th, ha, proves_of_conc (by simpa using hc)⟩
+      | false => exact ⟨th, ha, proves_of_conc (by simpa using hc)⟩
+
+open StageThm StageSup ClauseThm in
+/-- **the first sentence of C09 for the GENERATED prover WITH PROOF OBJECTS.**  Where the model answers (the saturation
+ends within some fuel), at EVERY sufficiently large fuel: the generated `prove_tautology` over proof trees returns `(True, th)`
+with `th` PROVING literally the pattern EXACTLY when the pattern is a tautology, `(False, th)` with `th` PROVING literally its
+negation EXACTLY when it is unsatisfiable, and `None` EXACTLY when it is contingent -/
+theorem prover_returns_proof_iff (F : Nat) (f : Form) (x : Option Bool) (hm : proveTautology F f = some x) :
+    ∃ F', ∀ G, F' ≤ G →
+      ((∀ v, f.eval v = true) ↔
+        ∃ th, Gen.Stage.prove_tautology algGS ptcG bpfhG G f = some (some (true, th)) ∧ Proves th (toPat f)) ∧
+      ((∀ v, f.eval v = false) ↔
+        ∃ th, Gen.Stage.prove_tautology algGS ptcG bpfhG G f = some (some (false, th)) ∧ Proves th (Lem.negP (toPat f))) ∧
+      (((∃ v, f.eval v = true) ∧ (∃ v, f.eval v = false)) ↔
+        Gen.Stage.prove_tautology algGS ptcG bpfhG G f = some none) := by
+  obtain ⟨F', hF'⟩ := prover_returns_proof_complete F f x hm
+  have hd := _root_.prover_decides F f
+  refine ⟨F', fun G hG => ?_⟩
+  have hc := hF' G hG
+  obtain ⟨s1, s2, s3⟩ := prover_returns_proof_sound G f
+  have v0 : Nat → Bool := fun _ => true
+  refine ⟨⟨fun ht => ?_, fun ⟨th, h, _⟩ => (s1 th h).1⟩, ⟨fun hf => ?_, fun ⟨th, h, _⟩ => (s2 th h).1⟩,
+    ⟨fun hcg => ?_, fun h => s3 h⟩⟩
+  · cases x with
+    | none =>
+      obtain ⟨_, v, hv⟩ := hd.2.2 hm
+      rw [ht v] at hv; cases hv
+    | some b =>
+      cases b with
+      | true => exact hc
+      | false =>
+        have := hd.2.1 hm v0
+        rw [ht v0] at this; cases this
+  · cases x with
+    | none =>
+      obtain ⟨⟨v, hv⟩, _⟩ := hd.2.2 hm
+      rw [hf v] at hv; cases hv
+    | some b =>
+      cases b with
+      | false => exact hc
+      | true =>
+        have := hd.1 hm v0
+        rw [hf v0] at this; cases this
+  · cases x with
+    | none => exact hc
+    | some b =>
+      obtain ⟨⟨v1, h1⟩, ⟨v2, h2⟩⟩ := hcg
+      cases b with
+      | true =>
+        have := hd.1 hm v2
+        rw [h2] at this; cases this
+      | false =>
+        have := hd.2.1 hm v1
+        rw [h1] at this; cases this
 
 end C09
